@@ -143,7 +143,7 @@ def validate_input_value_impl(
             if field_name not in field_defs:
                 suggestion = (
                     ""
-                    if hide_suggestions
+                    if hide_suggestions or not isinstance(field_name, str)
                     else did_you_mean(suggestion_list(field_name, list(field_defs)))
                 )
                 report_invalid_value(
